@@ -51,6 +51,7 @@ type runStat struct {
 	Roots          int    `json:"distinctRoots"`
 	RootRepeats    int    `json:"stagesHittingKnownRoot"`
 	BlindObjects   int    `json:"blindStateObjects"`
+	MidStages      int    `json:"stageThenRevertBelowIt"`
 	BlindWrites    int    `json:"blindStorageWrites"`
 	EncodeWrites   int    `json:"encodeStorageWrites"`
 	SideOps        int    `json:"logTransferRefundOps"`
@@ -93,6 +94,7 @@ type recorder struct {
 	book                         // of the current State object
 	books   map[int]*book        // of the parked ones
 	cur     int                  // id of the current State object
+	fresh   int                  // counter for storage keys never mentioned before
 	failed  bool
 }
 
@@ -535,7 +537,9 @@ func (r *recorder) partC(na int) {
 		return
 	}
 	r.apply(op{name: "Reopen", v: len(r.w.commits)})
+	r.stageInTheMiddle(ca)
 	r.apply(op{name: "Reopen", v: c2})
+	r.stageInTheMiddle(ca)
 	r.apply(op{name: "Switch", t: 2}) // the live sibling after the other one's commit and the re-opens
 	for i, n := 0, 1+r.rng.Intn(8); i < n; i++ {
 		write()
@@ -545,6 +549,31 @@ func (r *recorder) partC(na int) {
 	if !r.failed {
 		r.apply(op{name: "Reopen", v: len(r.w.commits)})
 	}
+}
+
+// stageInTheMiddle: Stage is an operation that may occur at any point and must leave the State as it was.  Checkpoint;
+// write slots of a never mentioned before (no getter has cached them) and one known slot; Stage without commit; revert
+// below the staged writes - the full read after RevertTo fetches the fresh slots straight from the storage trie the
+// State keeps open -; write another slot and Stage again: reads and the second root must be those of the map model.
+func (r *recorder) stageInTheMiddle(a int) {
+	if r.blind || r.depth >= 6 || r.failed {
+		return
+	}
+	r.apply(op{name: "NewCheckpoint"})
+	lvl := r.depth - 1
+	for i, n := 0, 1+r.rng.Intn(3); i < n; i++ {
+		r.fresh++
+		r.apply(op{name: []string{"SetStorage", "SetRawStorage", "EncodeStorage"}[r.rng.Intn(3)], a: a, k: 100000 + r.fresh, v: 1 + r.rng.Intn(300)})
+	}
+	if ks := r.keysOf(a); len(ks) > 0 {
+		r.apply(op{name: "SetStorage", a: a, k: ks[r.rng.Intn(len(ks))], v: r.rng.Intn(2) * (301 + r.rng.Intn(300))})
+	}
+	r.apply(op{name: "Stage"})
+	r.apply(op{name: "RevertTo", v: lvl})
+	r.fresh++
+	r.apply(op{name: "SetStorage", a: a, k: 100000 + r.fresh, v: 1 + r.rng.Intn(300)})
+	r.apply(op{name: "Stage"})
+	r.st.MidStages++
 }
 
 // part A
@@ -576,6 +605,10 @@ func (r *recorder) partA(nOps, na int) {
 		x := r.rng.Intn(100)
 		if r.w.sdb != nil && r.rng.Intn(9) == 0 {
 			r.apply(r.sideOp())
+			continue
+		}
+		if r.rng.Intn(60) == 0 {
+			r.stageInTheMiddle(pickAddr())
 			continue
 		}
 		switch {
